@@ -193,6 +193,7 @@ func c09Oracle(c ev.Case) Res {
 
 var c09Atoms = []string{"\\'", "''", "'", "\"", "\"\"", "\\\"", "`", "``", "\\\\'", "\\", "$a$", "$$", "$", "$a", "/*", "/**/", "*/", "/*!", "@", "@@", "[", "]", "--", "--\n", "#\n", "#", "1e", "1e+", "0x", "q'(", ")'", "x'", "n'", "u&'", "b'0",
 	"<", "-", "<!---", "--!", "%", "<%%", "%>", "]", "]]", "]]>", "&#", "&#x", "&#1;", "/", "a=b ", "<a ", "<a/", "<a", ">", "=", "='", "=\"", "((1", "1,", "{a ", "(", ")", ";", ",", "a.", ".", "1 ", "a ", "or ", "select ", "union ", "- ", "+", "!", "::", "\x00", "-\x00", " ", "\n", "\xa0", "\xe9", "<!", "<?", "<!--", "<![CDATA[", "</a", "</", "on", "onclick=", "href=", "href=&#", "style=x "}
+
 // c09PairAtoms: token-forming atoms of both languages; every ordered pair is a family
 // (a scanner that looks far ahead but consumes little only shows when two token kinds alternate)
 var c09PairAtoms = []string{"`a`", "`", "'a'", "'", "\"a\"", "MOD", "or", "select", "union", "a", "1", ".5", "1.", ".", "a.", "0x1", "1e", "$a$", "$a", "$1", "@a", "@", "[a]", "[", "q'(", "n'a'", "x'1'", "u&'a'", "--", "#", "/*", "*/", "/*a*/", "\\", "(", ")", ",", ";", "=", "-", " ", "\n",
